@@ -291,6 +291,20 @@ fn explore(ctx: &mut Ctx) {
         }
     }
     ctx.exhaustive_part("UTF-8 inputs over {a,é,漢,😀} x their own byte prefixes / suffixes of 1..=4 bytes (char-aligned or not) as [u8] pattern");
+    // lead-byte sweep: the char itself (char and str kinds), its successor, its first byte and its tail bytes as patterns
+    for s in gen::lead_byte_strings() {
+        let hb = s.as_bytes();
+        for c in s.chars() {
+            let mut buf = [0u8; 4];
+            let enc = c.encode_utf8(&mut buf).as_bytes().to_vec();
+            eval(ctx, hb, &enc);
+            eval(ctx, hb, &enc[..1]);
+            if enc.len() > 1 {
+                eval(ctx, hb, &enc[1..]);
+            }
+        }
+    }
+    ctx.exhaustive_part("lead-byte sweep: first / last scalar of each of the 51 UTF-8 lead bytes x 8 short contexts x {each of its chars, that char's lead byte, its continuation bytes} as pattern");
     let b = |v: Vec<String>| v.into_iter().map(String::into_bytes).collect::<Vec<_>>();
     let text = ["a", "é", "漢", " "];
     product(ctx, &b(gen::strings(&text, if q { 5 } else { 6 })), &b(gen::strings(&text, 3)));
